@@ -204,6 +204,14 @@ func (e *Engine) LoadContracts(mirrorDir, trustedDir, specDir string) error {
 		if err := e.cs.ParseContractFile(f, path); err != nil {
 			return err
 		}
+		// further contract files of the same package: contracts_verif_*.go
+		more, _ := filepath.Glob(filepath.Join(filepath.Dir(f), "contracts_verif_*.go"))
+		sort.Strings(more)
+		for _, mf := range more {
+			if err := e.cs.ParseContractFile(mf, path); err != nil {
+				return err
+			}
+		}
 	}
 	// method ids of logged interfaces are fixed up front (independent of call order)
 	var logs []string
@@ -279,6 +287,13 @@ func (e *Engine) note(f string, a ...interface{}) {
 // ---------------------------------------------------------------------------------------------
 // globals
 
+// sentinelErrors: package-level error values of the standard library that are never reassigned.
+var sentinelErrors = map[string]bool{"io::EOF": true, "io::ErrUnexpectedEOF": true, "io::ErrNoProgress": true, "io::ErrShortWrite": true}
+
+func (e *Engine) isConstGlobal(g *ssa.Global) bool {
+	return e.cs.ConstGl[globKey(g)] || sentinelErrors[globKey(g)]
+}
+
 func globKey(g *ssa.Global) string { return g.Pkg.Pkg.Path() + "::" + g.Name() }
 
 func globalElemType(g *ssa.Global) types.Type { return g.Type().(*types.Pointer).Elem() }
@@ -327,8 +342,24 @@ func (e *Engine) loadGlobal(st *State, g *ssa.Global) Value {
 	if e.inInit {
 		v = zeroOf(t)
 	} else {
-		v = freshOf("Glob:"+globKey(g)+st.Epoch, t, nil, true)
+		ep := st.Epoch
+		if sentinelErrors[globKey(g)] {
+			ep = ""
+		}
+		v = freshOf("Glob:"+globKey(g)+ep, t, nil, true)
 		st.assumeWF(v, t)
+		if sentinelErrors[globKey(g)] {
+			// exported sentinel errors of the standard library are non-nil and pairwise distinct
+			if it, ok := v.(*Term); ok && it.Sort == IfaceSrt {
+				st.Assume(Ne(it, NilIface))
+				st.Assume(Ne(ifaceTag(it), BVU(0, 32)))
+				for k := range sentinelErrors {
+					if k != globKey(g) {
+						st.Assume(Ne(it, Var("Glob:"+k, IfaceSrt)))
+					}
+				}
+			}
+		}
 	}
 	st.Globs[g] = v
 	return v
